@@ -22,18 +22,25 @@ RULE = ("Sub-checks point_to_point / vertex_set / border: one query per case on 
         "(persistent 'length' attribute, stale after the next geometry edit) or add unrelated attributes, and half of the "
         "queries have their returned lists / dicts / polyline overwritten by the caller afterwards. Single-query cases may "
         "carry such attributes too (edge_length then an anisotropic rescale; a user-filled edge attribute 'length'; a dozen "
-        "attributes named weight / distance / visited / parent ...). 1 case in 200 uses a jittered grid / lattice of more than "
+        "attributes named weight / distance / visited / parent ...). A sixth of the single-query cases and some history steps first issue a call with a "
+        "faulty argument (weight dict lacking 1-2 edges, unknown weight mode, unreachable / non-existent target) that is "
+        "expected to raise, possibly in the middle of the search: mesh, config and the following query must be unaffected. "
+        "Representation choices drawn per case: ids as int / numpy int64, int32, uint16, uint8; index rows as lists or numpy "
+        "arrays (from_arrays) of int64 / int32 / int16 / uint8; coordinates float64, float32 or int64; dict weights as Python "
+        "float / int or numpy uint8, int8, int16, uint16, int32, int64, float32, float64 scalars (integer kinds use the full "
+        "range of the type, so distances exceed it); config.sort_neighborhoods and display_duplicate_attribute_warning on/off. "
+        "1 case in 100 uses a jittered grid / lattice of more than "
         "1000 vertices. Meshes: polylines (paths, cycles, trees, random simple graphs, lattice graphs with "
         "integer coordinates, wheels/ladders; optional second component and isolated vertices; random relabelling and edge "
         "orientation), surfaces (vlib.gen_surface.surfaces, <=40 faces, incl. disjoint unions, tori, polygons; Delaunay disks "
         "<=30 points; for border queries closed surfaces are mostly punctured by removing 1-2 faces so that the start can be "
         "several edges away from the border) and tet meshes (vlib.gen_tets.tets, <=25 cells); coordinates uniformly scaled by "
-        "1, 1e-3 .. 1e-12 or 1e3 .. 1e12; integral coordinates optionally stored as int64 rows. Entry points shortest_path (target "
+        "1, 1e-3 .. 1e-12 or 1e3 .. 1e12 and then translated by 0 or 1e3 .. 1e8 times the size of the mesh; integral coordinates optionally stored as int64 rows. Entry points shortest_path (target "
         "as int / list / set / tuple / numpy array / one-shot iterator, 1-6 targets, duplicates in lists, start among the targets, whole "
         "component), shortest_path_to_vertex_set (1-6 targets incl. singletons, start in the set, optionally extra members in "
         "other components) and shortest_path_to_border (start in a bordered component, incl. start on the border; closed "
         "surfaces must raise the documented exception). Vertex ids as Python ints or numpy.int64. Weights: omitted, 'length', "
-        "'one', dict, sparse Attribute (all written / only non-zeros written) and dense Attribute, with values from {0..3}, "
+        "'one', dict, sparse Attribute (all written / only non-zeros written / non-zero default with only the other values written) and dense Attribute, with values from {0..3}, "
         "zero-heavy, all-zero, all-equal, dyadic, uniform floats and 6 decades wide, optionally scaled by 1e-6 .. 1e-15 or 1e6 .. 1e12 (dict insertion order "
         "shuffled); "
         "export_path_mesh on/off/omitted. Oracle: Bellman-Ford distances from the case's own edge list. non-trivial = some "
@@ -46,12 +53,23 @@ ASSUMPTIONS = ["graphs are simple (no loops, no parallel edges); surfaces / tet 
                "target collections are list / set / tuple / 1-d integer numpy array / an iterator over such ids",
                "weights and coordinates may have any magnitude between 1e-18 and 1e15 (tolerances are relative to the largest weight "
                "/ distance involved); integer-typed coordinates stay below 2^24",
+               "tolerance 1e-9 relative, except 1e-5 where the caller's own data is float32 (float32 coordinates with 'length', "
+               "float32 scalars in a weight dict); fixed-width numpy integer weights are non-negative values of that type and the "
+               "minimum is taken over exact sums (no wrap-around)",
+               "a caller may catch an exception raised by a query with a faulty argument and go on querying",
                "edge / vertex attributes stored on the mesh under any name (e.g. 'length') are not inputs of a query: "
                "weights='length' means the Euclidean length of the edges at the time of the call",
                "between two queries a caller may assign new coordinates to mesh.vertices[i] and new values to entries of its own "
                "weight dict / Attribute; the next query must answer for the current state"]
 
 REL_TOL = 1e-9
+TOL = [REL_TOL]          # tolerance of the query being judged (1e-5 only where the CALLER supplies float32 data, see tol_for)
+# largest value used for weights handed over as fixed-width numpy scalars (the reference uses exactly these values)
+NARROW = {"uint8": 255, "int8": 127, "int16": 32767, "uint16": 65535, "int32": 10 ** 6, "int64": 10 ** 6}
+DVTYPES = [None, None, None, None, None, "uint8", "uint8", "int8", "int16", "uint16", "int32", "int64", "float32", "float64"]
+IDFORMS = ["int", "int", "int", "numpy", "np-int32", "np-uint16", "np-uint8"]
+ROWFORMS = ["list", "list", "list", "np-int64", "np-int32", "np-int16", "np-uint8"]
+OFFSETS = [0.0, 0.0, 0.0, 0.0, 0.0, 1e3, 1e4, 1e5, 1e6, 1e7, 1e8]
 
 
 # ------------------------------------------------------------------------------------------------ generators
@@ -239,7 +257,7 @@ def realise_weights(rnd, wkind, m):
     raise AssertionError(wkind)
 
 
-WMODES = ["omitted", "length", "one", "one", "dict", "dict", "attr", "attr_partial", "attr_dense"]
+WMODES = ["omitted", "length", "length", "one", "one", "dict", "dict", "dict", "attr", "attr_partial", "attr_default", "attr_dense"]
 
 
 # no absolute magnitude is special: a nanometre object in metres (1e-9..1e-12) or caller costs in tiny / huge units are in the domain
@@ -274,13 +292,41 @@ class GraphInfo:
 
 
 def scale_mesh(draw, mesh):
-    """uniform scaling of the coordinates (the property is scale covariant for 'length', invariant otherwise)"""
+    """uniform scaling of the coordinates (the property is scale covariant for 'length', invariant otherwise), then a
+    translation by 1e3 .. 1e8 times the size of the mesh (lengths are translation invariant; the reference measures the
+    stored coordinates, and |a-b| of two stored points is accurate to eps whatever the offset, so no tolerance changes)"""
     f = draw(st.sampled_from(SCALES))
+    mesh = dict(mesh)
     if f != 1.0:
-        mesh = dict(mesh)
         mesh["V"] = [[x * f for x in v] for v in mesh["V"]]
-    mesh["tags"] = list(mesh["tags"]) + ["scale=%g" % f]
+    k = draw(st.sampled_from(OFFSETS))
+    if k:
+        V = mesh["V"]
+        size = max([max(v[c] for v in V) - min(v[c] for v in V) for c in range(3)] + [0.0]) or f
+        rnd = random.Random(draw(st.integers(0, 10 ** 6)))
+        d = [rnd.choice([-1.0, 1.0, 0.3, 0.0]) for _ in range(3)]
+        if not any(d):
+            d[rnd.randrange(3)] = 1.0
+        off = [k * size * x for x in d]
+        mesh["V"] = [[v[c] + off[c] for c in range(3)] for v in V]
+    mesh["tags"] = list(mesh["tags"]) + ["scale=%g" % f, "offset/size=%g" % k]
     return mesh
+
+
+def draw_forms(draw, case):
+    """representation choices that do not change the graph: dtypes of ids / index rows / coordinates / dict values, library switches"""
+    import numpy as np
+    case["idform"] = draw(st.sampled_from(IDFORMS))
+    case["rowform"] = draw(st.sampled_from(ROWFORMS))
+    case["intcoords"] = draw(st.booleans())
+    case["dvtype"] = draw(st.sampled_from(DVTYPES))
+    case["cfg"] = {"sort": draw(st.booleans()), "dupwarn": draw(st.booleans())}
+    if draw(st.integers(0, 5)) == 0:
+        mx = max([abs(x) for v in case["V"] for x in v] + [0.0])
+        if mx < 1e15 and all(x == 0.0 or abs(x) > 1e-15 for v in case["V"] for x in v):
+            # low precision point array: the coordinates ARE the float32 values
+            case["V"] = [[float(np.float32(x)) for x in v] for v in case["V"]]
+            case["coordtype"] = "float32"
 
 
 def gen_border_start(draw, rnd, G):
@@ -366,6 +412,27 @@ def gen_weight_tables(draw, nE, k):
     return tabs, kinds
 
 
+def gen_bad_query(rnd, G):
+    """a call with a faulty argument that makes the library raise, possibly in the middle of its search: a weight dict that
+    lacks some edges / an unknown weight mode / an unreachable or non-existent target"""
+    kinds = ["partial-dict", "partial-dict", "partial-dict", "partial-dict", "bad-mode", "bad-target"]
+    kind = rnd.choice(kinds) if G.E else rnd.choice(["bad-mode", "bad-target"])
+    start = rnd.choice(G.nonisolated) if G.nonisolated else rnd.randrange(G.n)
+    comp = [v for v in range(G.n) if G.lab[v] == G.lab[start]]
+    q = {"op": "bad", "kind": kind, "entry": rnd.choice(["p2p", "set"]), "start": start,
+         "targets": [rnd.choice(comp) for _ in range(rnd.randint(2, 3))]}
+    if kind == "partial-dict":
+        ecomp = [i for i, (a, b) in enumerate(G.E) if G.lab[a] == G.lab[start]] or list(range(len(G.E)))
+        far = sorted(ecomp, key=lambda i: -min(G.hops(start)[G.E[i][0]] or 0, G.hops(start)[G.E[i][1]] or 0))
+        pool = far[:max(1, len(far) // 2)] if rnd.random() < 0.7 else ecomp      # mostly edges the search meets late
+        q["drop"] = sorted(set(rnd.choice(pool) for _ in range(rnd.randint(1, 2))))
+    elif kind == "bad-target":
+        others = [v for v in range(G.n) if G.lab[v] != G.lab[start]]
+        q["entry"] = "p2p"
+        q["targets"] = [rnd.choice(others)] if (others and rnd.random() < 0.7) else [G.n + 3]
+    return q
+
+
 @st.composite
 def query_case(draw, entry):
     if entry == "border":
@@ -380,9 +447,10 @@ def query_case(draw, entry):
     case["W"], case["wkind"] = tabs[0], kinds[0]
     case["intvals"] = draw(st.booleans())
     case["export"] = draw(st.sampled_from(["omitted", False, True, True]))
-    case["idform"] = draw(st.sampled_from(["int", "int", "int", "numpy"]))
-    case["intcoords"] = draw(st.booleans())
+    draw_forms(draw, case)
     case["decoy"] = draw(st.sampled_from(DECOYS))
+    if draw(st.integers(0, 5)) == 0:
+        case["prebad"] = gen_bad_query(random.Random(draw(st.integers(0, 10 ** 6))), G)
     case["aniso"] = draw(st.sampled_from(ANISO))
     # start / targets: uniform picks from a drawn seed (Hypothesis' integer draws are biased towards 0, which would make
     # start == target in most cases); the realised values are stored in the case
@@ -407,8 +475,7 @@ def history_case(draw):
     nE = len(G.E)
     case["Wt"], case["wkinds"] = gen_weight_tables(draw, nE, 2)
     case["intvals"] = draw(st.booleans())
-    case["idform"] = draw(st.sampled_from(["int", "int", "int", "numpy"]))
-    case["intcoords"] = draw(st.booleans())
+    draw_forms(draw, case)
     case["decoy"] = draw(st.sampled_from([None, None, None, None, "user-length", "many-names"]))
     rnd = random.Random(draw(st.integers(0, 10 ** 6)))
     two = draw(st.integers(0, 3)) == 0 and "large" not in case["tags"]
@@ -427,7 +494,12 @@ def history_case(draw):
         m = rnd.randrange(2) if two else 0
         V = Vs[m]
         if steps and draw(st.integers(0, 6)) == 0:
-            kind = draw(st.sampled_from(["setV", "setV", "setW", "edge_length", "edge_length", "decoy"]))
+            kind = draw(st.sampled_from(["setV", "setV", "setW", "edge_length", "edge_length", "decoy", "bad", "bad", "bad"]))
+            if kind == "bad":
+                b = gen_bad_query(rnd, G)
+                b["m"] = m
+                steps.append(b)
+                continue
             if kind == "setW" and nE == 0:
                 kind = "setV"
             if kind == "setV":
@@ -507,23 +579,38 @@ def dist3(p, q):
 
 
 def build_mesh(case, V=None):
+    """-> (mesh, integer-typed coordinates?). Depending on the case the mesh is built from Python lists (vlib.build) or from
+    numpy arrays (from_arrays) with the drawn dtypes for coordinates (float64 / float32 / int64) and index rows"""
+    import numpy as np
+    import mouette as M
+    from mouette.mesh.mesh_data import RawMeshData
     V = case["V"] if V is None else V
-    if case.get("intcoords") and all(float(x).is_integer() and abs(x) < 2 ** 24 for v in V for x in v):
-        # integer-typed coordinates (numpy int64 rows), as obtained from integer arrays; magnitudes whose squares stay far
-        # from the int64 range (larger integer coordinates overflow in any integer arithmetic: outside the domain)
-        import numpy as np
-        import mouette as M
-        from mouette.mesh.mesh_data import RawMeshData
+    n = len(V)
+    # integer-typed coordinates: magnitudes whose squares stay far from the int64 range (larger integer coordinates overflow
+    # in any integer arithmetic: outside the domain)
+    intc = bool(case.get("intcoords")) and all(float(x).is_integer() and abs(x) < 2 ** 24 for v in V for x in v)
+    f32 = case.get("coordtype") == "float32" and all(float(np.float32(x)) == x for v in V for x in v)
+    cdt = np.int64 if intc else np.float32 if f32 else np.float64
+    rowform = case.get("rowform", "list")
+    rows = case["E"] if case["kind"] == "polyline" else case["F"] if case["kind"] == "surface" else case["C"]
+    if rowform != "list" and rows and len(set(len(r) for r in rows)) == 1:
+        rdt = {"np-int64": np.int64, "np-int32": np.int32, "np-int16": np.int16 if n < 2 ** 15 else np.int32,
+               "np-uint8": np.uint8 if n <= 255 else np.int32}[rowform]
+        Va = np.array(V, dtype=cdt).reshape(-1, 3)
+        R = np.array(rows, dtype=rdt)
+        kw = {"E": R} if case["kind"] == "polyline" else {"F": R} if case["kind"] == "surface" else {"C": R}
+        return M.mesh.from_arrays(Va, **kw), intc
+    if intc or f32:
         raw = RawMeshData()
-        raw.vertices += [np.array([int(x) for x in v], dtype=np.int64) for v in V]
+        raw.vertices += [np.array(v, dtype=cdt) for v in V]
         if case["kind"] == "polyline":
             raw.edges += [tuple(e) for e in case["E"]]
-            return M.mesh.PolyLine(raw), True
+            return M.mesh.PolyLine(raw), intc
         if case["kind"] == "surface":
             raw.faces += [list(f) for f in case["F"]]
-            return M.mesh.SurfaceMesh(raw), True
+            return M.mesh.SurfaceMesh(raw), intc
         raw.cells += [list(c) for c in case["C"]]
-        return M.mesh.VolumeMesh(raw), True
+        return M.mesh.VolumeMesh(raw), intc
     if case["kind"] == "polyline":
         return polyline_from(V, case["E"]), False
     if case["kind"] == "surface":
@@ -536,7 +623,7 @@ def close_w(got, exp, wmax):
     scale = max(abs(exp), wmax)
     if scale == 0.0:
         return got == 0.0
-    return abs(got - exp) <= REL_TOL * scale
+    return abs(got - exp) <= TOL[0] * scale
 
 
 def check_path(ctx, sig, what, path, start, end, wedges, dref, wmax):
@@ -550,7 +637,17 @@ def check_path(ctx, sig, what, path, start, end, wedges, dref, wmax):
     if end is not None:
         if not ctx.check(path[-1] == end, sig + ":end", f"{what}: path {path} does not end at target {end}"):
             return None
-    w, bad = RG.walk_weight(wedges, path)
+    if isinstance(wedges, dict):             # prepared {(a, b): weight}, a < b
+        ws, bad = [], None
+        for u, v in zip(path, path[1:]):
+            k = (u, v) if u < v else (v, u)
+            if u == v or k not in wedges:
+                bad = (u, v)
+                break
+            ws.append(wedges[k])
+        w = math.fsum(ws)
+    else:
+        w, bad = RG.walk_weight(wedges, path)
     if not ctx.check(bad is None, sig + ":edge", f"{what}: step {bad} of path {path} is not an edge of the mesh"):
         return None
     ctx.check(close_w(w, dref, wmax), sig + ":minimal",
@@ -603,9 +700,14 @@ class Env:
         self.n = len(self.V)
         self.E = ref_edges(case)
         self.lab = RG.component_labels(self.n, self.E)
+        self.adj = RG.adjacency_lists(self.n, self.E)
         self.tabs = [list(map(float, t)) for t in (case["Wt"] if "Wt" in case else [case["W"]])]
         self.tabmap = [1, 0] if (variant and len(self.tabs) == 2) else list(range(len(self.tabs)))   # the second object swaps the tables
         self.tabs = [self.tabs[i] for i in self.tabmap]
+        # weights handed over as fixed-width numpy scalars: the tables hold exactly the values such a scalar can carry
+        self.dvtype = case.get("dvtype")
+        self.tabmax = [max(t + [0.0]) for t in self.tabs]
+        self.tabs = [[self.tabval(i, w) for w in t] for i, t in enumerate(self.tabs)]
         self.mesh, self.int_coords = build_mesh(case, self.V)
         try:
             self.medges = [key(e) for e in self.mesh.edges]
@@ -616,10 +718,33 @@ class Env:
         self.kidx = {k: i for i, k in enumerate(self.E)}           # edge key -> index in the weight tables
         self.wargs = {}                                            # (wtab, wmode) -> the argument object, reused between calls
         self.bv = sorted(SurfRef(self.n, case["F"]).border_vertices()) if self.kind == "surface" else []
+        self.cfg = self.read_cfg()
+        self.moved = False                                         # coordinates re-assigned (as float64 Vec) since construction
         self.history = []                                          # (wclass, kind of query, target members) of earlier queries
         self.nfaces = len(self.mesh.faces) if self.kind == "surface" else None
 
     # ---- weights
+    def tabval(self, tab, w):
+        """the value stored in table `tab` for a drawn weight w"""
+        import numpy as np
+        if self.dvtype in NARROW:
+            hi, mx = NARROW[self.dvtype], self.tabmax[tab]
+            return float(min(hi, int(round(w / mx * hi)))) if mx > 0 else 0.0
+        if self.dvtype == "float32":
+            return float(np.float32(w))
+        return float(w)
+
+    def scalar(self, tab, w):
+        """the object put into a weight dict for table value w"""
+        import numpy as np
+        if self.dvtype in NARROW:
+            return getattr(np, self.dvtype)(int(w))
+        if self.dvtype in ("float32", "float64"):
+            return getattr(np, self.dvtype)(w)
+        if self.intdict(tab) and float(w).is_integer():
+            return int(w)
+        return float(w)
+
     def wvalue(self, tab, k):
         return self.tabs[tab][self.kidx[k]]
 
@@ -636,14 +761,19 @@ class Env:
         if (tab, wmode) in self.wargs:
             return self.wargs[(tab, wmode)]
         if wmode == "dict":
-            if self.intdict(tab):
-                arg = {i: int(self.wvalue(tab, k)) for i, k in enumerate(self.medges)}
-                self.ctx.label("dict-of-ints")
-            else:
-                arg = {i: float(self.wvalue(tab, k)) for i, k in enumerate(self.medges)}
+            arg = {i: self.scalar(tab, self.wvalue(tab, k)) for i, k in enumerate(self.medges)}
+            self.ctx.label("dict-values=" + (self.dvtype or ("int" if self.intdict(tab) else "float")))
             items = list(arg.items())
             random.shuffle(items)             # insertion order of the caller's dict is arbitrary (seeded from the case by the runner)
             arg = dict(items)
+        elif wmode == "attr_default":
+            # sparse attribute with a non-zero default: only the entries that differ from the most frequent weight are written
+            vals = [self.wvalue(tab, k) for k in self.medges]
+            dflt = max(sorted(set(vals)), key=vals.count) if vals else 1.0
+            arg = self.mesh.edges.create_attribute(f"c09_w{tab}_{wmode}", float, dense=False, default_value=float(dflt))
+            for i, k in enumerate(self.medges):
+                if self.wvalue(tab, k) != dflt:
+                    arg[i] = float(self.wvalue(tab, k))
         else:
             arg = self.mesh.edges.create_attribute(f"c09_w{tab}_{wmode}", float, dense=(wmode == "attr_dense"))
             for i, k in enumerate(self.medges):
@@ -670,20 +800,18 @@ class Env:
             self.V[i] = [float(x) for x in p]
             self.mesh.vertices[i] = M.Vec(float(p[0]), float(p[1]), float(p[2]))
         self.int_coords = False
+        self.moved = True
 
     def set_weights(self, tab, updates):
+        updates = [(kk, self.tabval(tab, w)) for kk, w in updates]
         for kk, w in updates:
-            self.tabs[tab][kk] = float(w)
+            self.tabs[tab][kk] = w
         for (t, wmode), arg in self.wargs.items():
             if t != tab:
                 continue
-            isint = wmode == "dict" and all(isinstance(x, int) for x in arg.values())
             for kk, w in updates:
                 i = self.medges.index(self.E[kk])
-                if isint and float(w).is_integer():
-                    arg[i] = int(w)
-                else:
-                    arg[i] = float(w)
+                arg[i] = self.scalar(tab, w) if wmode == "dict" else float(w)
 
     # ---- attributes a caller may legitimately keep on the mesh; none of them is an input of the queries
     def add_edge_length(self):
@@ -725,9 +853,16 @@ class Env:
         except Exception as e:
             raise AssertionError(f"harness cannot read the length attribute: {e!r}")
 
+    @staticmethod
+    def read_cfg():
+        import mouette as M
+        return tuple(getattr(M.config, k) for k in ("sort_neighborhoods", "display_duplicate_attribute_warning",
+                                                    "complete_edges_from_faces", "complete_faces_from_cells", "export_edges_in_obj"))
+
     # ---- nothing handed to the library may be changed by it
     def check_unchanged(self, sig, what):
         ctx = self.ctx
+        ctx.check(self.read_cfg() == self.cfg, sig + ":config-changed", f"{what}: the call left mouette.config changed: {self.read_cfg()} (was {self.cfg})")
         try:
             mv = [[float(x) for x in v] for v in self.mesh.vertices]
             me = [key(e) for e in self.mesh.edges]
@@ -745,10 +880,12 @@ class Env:
         return ok
 
 
-def make_ids(idform, tform, start, targets):
+def make_ids(idform, tform, start, targets, n=0):
     """start / targets in the form handed to the library, and a snapshot function telling whether targets were modified"""
     import numpy as np
-    cv = (lambda x: np.int64(x)) if idform == "numpy" else int
+    dt = {"numpy": np.int64, "np-int32": np.int32, "np-uint16": np.uint16 if n < 2 ** 16 else np.int64,
+          "np-uint8": np.uint8 if n <= 255 else np.int64}.get(idform)
+    cv = (lambda x: dt(x)) if dt is not None else int
     s = cv(start)
     if tform == "int":
         targ = int(targets[0])                 # a scalar target is documented as `int`
@@ -757,7 +894,7 @@ def make_ids(idform, tform, start, targets):
     elif tform == "tuple":
         targ = tuple(cv(t) for t in targets)
     elif tform == "array":
-        targ = np.array([int(t) for t in targets], dtype=np.int64)
+        targ = np.array([int(t) for t in targets], dtype=dt or np.int64)
     elif tform == "iter":
         targ = iter([cv(t) for t in targets])          # a one-shot iterable
     else:
@@ -824,6 +961,12 @@ def _run_query(env, q, ctx, where, out):
     wmax = max([w for _, _, w in wedges] + [0.0])
     dist = RG.bellman_ford(n, wedges, start)
     wref = {(a, b): w for a, b, w in wedges}
+    # 1e-9 everywhere, except where the caller's own data is single precision (float32 coordinates for 'length', float32
+    # scalars in the weight dict): accumulating such data in single precision is legitimate, 1e-5 then
+    TOL[0] = REL_TOL
+    if (wc == "length" and env.case.get("coordtype") == "float32") or (wmode == "dict" and env.dvtype == "float32"):
+        TOL[0] = 1e-5
+        ctx.label("tolerance=1e-5(float32-input)")
 
     ctx.label("wmode=" + wmode, "export=" + str(export), "tform=" + q["tform"], "entry=" + entry)
     if wc == "custom":
@@ -848,7 +991,7 @@ def _run_query(env, q, ctx, where, out):
     want_mesh = export is True
 
     def tie_at(t):
-        nb = [a if b == t else b for (a, b) in E if t in (a, b)]
+        nb = env.adj[t]
         return sum(1 for u in nb if close_w(dist[u] + wref[key(u, t)], dist[t], wmax)) >= 2
 
     def stale_winner(members, dmin):
@@ -862,7 +1005,7 @@ def _run_query(env, q, ctx, where, out):
     # =============================================================================== point to point
     if entry == "p2p":
         tform = q["tform"]
-        s_arg, targ, targ_unchanged = make_ids(idform, tform, start, targets)
+        s_arg, targ, targ_unchanged = make_ids(idform, tform, start, targets, n)
         tset = sorted(set(targets))
         assert all(lab[t] == lab[start] for t in tset), "generator: unreachable point-to-point target"
         ctx.label("ntargets=" + ("1" if len(tset) == 1 else "2-3" if len(tset) <= 3 else "4+"))
@@ -892,7 +1035,7 @@ def _run_query(env, q, ctx, where, out):
             return False
         paths = []
         for t in tset:
-            w = check_path(ctx, sig, f"{what}, target {t}", res[t], start, t, wedges, dist[t], wmax)
+            w = check_path(ctx, sig, f"{what}, target {t}", res[t], start, t, wref, dist[t], wmax)
             if w is None:
                 return False
             paths.append([int(v) for v in res[t]])
@@ -903,7 +1046,7 @@ def _run_query(env, q, ctx, where, out):
     # =============================================================================== vertex set
     if entry == "set":
         tform = q["tform"]
-        s_arg, targ, targ_unchanged = make_ids(idform, tform, start, targets)
+        s_arg, targ, targ_unchanged = make_ids(idform, tform, start, targets, n)
         tset = sorted(set(targets))
         reach = [t for t in tset if lab[t] == lab[start]]
         assert reach, "generator: no reachable member"
@@ -936,7 +1079,7 @@ def _run_query(env, q, ctx, where, out):
                          f"{what}: returned member {ind} is at distance {dist[ind]!r} from {start}, but the nearest member is at {dmin!r} "
                          f"(distances {[(t, dist[t]) for t in tset]})"):
             return False
-        w = check_path(ctx, sig, f"{what}, returned member {ind}", path, start, ind, wedges, dist[ind], wmax)
+        w = check_path(ctx, sig, f"{what}, returned member {ind}", path, start, ind, wref, dist[ind], wmax)
         if w is None:
             return False
         if want_mesh:
@@ -948,7 +1091,7 @@ def _run_query(env, q, ctx, where, out):
         bv = env.bv
         sig = f"border/{wc}"
         what = f"{where}start {start}, border"
-        s_arg = make_ids(idform, "list", start, [])[0]
+        s_arg = make_ids(idform, "list", start, [], n)[0]
         if not bv:
             ctx.label("closed->documented-exception")
             try:
@@ -995,7 +1138,7 @@ def _run_query(env, q, ctx, where, out):
         if not ctx.check(close_w(dist[end], dmin, wmax), sig + ":nearest",
                          f"{what}: path ends at border vertex {end} at distance {dist[end]!r}, the nearest border vertex is at {dmin!r}"):
             return False
-        w = check_path(ctx, sig, what, path, start, end, wedges, dist[end], wmax)
+        w = check_path(ctx, sig, what, path, start, end, wref, dist[end], wmax)
         if w is None:
             return False
         if want_mesh:
@@ -1004,11 +1147,47 @@ def _run_query(env, q, ctx, where, out):
     raise AssertionError(entry)
 
 
+def apply_cfg(case, ctx):
+    """library-wide switches that must not matter for a query (set before the mesh is built; the runner restores them)"""
+    import mouette as M
+    cfg = case.get("cfg")
+    if cfg:
+        M.config.sort_neighborhoods = bool(cfg["sort"])
+        M.config.display_duplicate_attribute_warning = bool(cfg["dupwarn"])
+        ctx.label("config:sort_neighborhoods=" + str(bool(cfg["sort"])), "config:duplicate_attribute_warning=" + str(bool(cfg["dupwarn"])))
+
+
+def run_bad(env, b, ctx):
+    """a call with a faulty argument; whatever it does (normally: raise), the mesh, the config and the NEXT query must be fine"""
+    from vlib.runner import Violation, HarnessError
+    from mouette.processing import paths as LP
+    kind = b["kind"]
+    if kind == "partial-dict":
+        drop = set(int(x) for x in b["drop"])
+        w = {i: float(env.wvalue(0, k)) for i, k in enumerate(env.medges) if env.kidx[k] not in drop}
+    elif kind == "bad-mode":
+        w = "euclidean"
+    else:
+        w = "one"
+    f = LP.shortest_path if b["entry"] == "p2p" else LP.shortest_path_to_vertex_set
+    try:
+        f(env.mesh, int(b["start"]), [int(t) for t in b["targets"]], w)
+        outcome = "returned"
+    except (Violation, HarnessError):
+        raise
+    except Exception:
+        outcome = "raised"
+    ctx.label(f"faulty-call:{kind}:{b['entry']}:{outcome}")
+    env.check_unchanged("after-faulty-call", f"after a {b['entry']} call with a faulty argument ({kind}) that {outcome}")
+    return outcome
+
+
 def label_mesh(case, env, ctx):
     for t in case.get("tags", []):
-        if t.startswith(("base=", "shape=", "comps=", "closed", "bordered", "second-component", "isolated", "coords=", "scale=", "large")):
+        if t.startswith(("base=", "shape=", "comps=", "closed", "bordered", "second-component", "isolated", "coords=", "scale=", "offset/size=", "large")):
             ctx.label(t)
-    ctx.label("kind=" + case["kind"], "ids=" + case.get("idform", "int"))
+    ctx.label("kind=" + case["kind"], "ids=" + case.get("idform", "int"), "rows=" + case.get("rowform", "list"),
+              "coords=" + ("int64" if env.int_coords else case.get("coordtype", "float64")))
     if env.int_coords:
         ctx.label("integer-typed-coordinates")
 
@@ -1029,17 +1208,22 @@ def apply_decoy(case, env, ctx):
 
 def fn(case, ctx):
     """one query on a fresh mesh"""
+    apply_cfg(case, ctx)
     env = Env(case, ctx)
     if not env.ok:
         return
     label_mesh(case, env, ctx)
     apply_decoy(case, env, ctx)
-    run_query(env, case, ctx)
+    where = ""
+    if case.get("prebad"):
+        where = f"(after a call with a faulty argument that {run_bad(env, case['prebad'], ctx)}) "
+    run_query(env, case, ctx, where)
 
 
 def fn_history(case, ctx):
     """several queries, interleaved with in-place edits of coordinates / custom weights / attributes, on ONE mesh object
     (optionally alternating with a second independent object of the same connectivity)"""
+    apply_cfg(case, ctx)
     envs = [Env(case, ctx)]
     if not envs[0].ok:
         return
@@ -1055,6 +1239,7 @@ def fn_history(case, ctx):
     ctx.label("queries=" + str(len(queries)))
     seen = [[], []]
     k = 0
+    after_bad = None
     for s in steps:
         m = int(s.get("m", 0))
         env = envs[m]
@@ -1075,6 +1260,9 @@ def fn_history(case, ctx):
             env.add_decoys("many-names", int(s["seed"]))
             ctx.label("hist:unrelated-attributes-added-between-queries")
             continue
+        if op == "bad":
+            after_bad = run_bad(env, s, ctx)
+            continue
         k += 1
         wcl = weight_class(s["wmode"], int(s.get("wtab", 0)))
         for (e0, w0, st0, tg0) in seen[m]:
@@ -1091,6 +1279,10 @@ def fn_history(case, ctx):
         seen[m].append((s["entry"], wcl, s["start"], sorted(set(s["targets"]))))
         prev = [("B:" if x.get("m") else "") + x["entry"] for x in queries[:k - 1]]
         which = "the second mesh object" if m else "the same mesh"
+        if after_bad:
+            ctx.label("hist:query-right-after-a-faulty-call-that-" + after_bad)
+            which += f", right after a call with a faulty argument that {after_bad}"
+            after_bad = None
         if not run_query(env, s, ctx, where=f"query #{k} of {len(queries)} on {which} (earlier: {prev[-4:]}): "):
             return
 
@@ -1105,10 +1297,10 @@ def self_test():
 
 
 SUBCHECKS = [
-    SubCheck("point_to_point", query_case("p2p"), fn, quick=2000, thorough=5000),
-    SubCheck("vertex_set", query_case("set"), fn, quick=1600, thorough=4000),
-    SubCheck("border", query_case("border"), fn, quick=1000, thorough=2500),
-    SubCheck("history", history_case(), fn_history, quick=2000, thorough=5000),
+    SubCheck("point_to_point", query_case("p2p"), fn, quick=1600, thorough=5000),
+    SubCheck("vertex_set", query_case("set"), fn, quick=1300, thorough=4000),
+    SubCheck("border", query_case("border"), fn, quick=800, thorough=2500),
+    SubCheck("history", history_case(), fn_history, quick=1600, thorough=5000),
 ]
 
 MATCHERS = {}
